@@ -224,3 +224,21 @@ def _(I, cls, args, kwargs):
     from pyvc.calls import construct_dataclass
 
     return construct_dataclass(I, cls, args, kwargs)
+
+
+@external("random.Random.randint")
+def _(I, args, kwargs):
+    """random.randint(a, b): any integer of [a, b]; ValueError for an empty range"""
+    import z3
+
+    from pyvc.interp import PyRaise, int_term, mk_exc
+    from pyvc.values import SInt
+
+    a, b = args[-2], args[-1]
+    ta, tb = int_term(a), int_term(b)
+    if not I.ctx.branch(ta <= tb):
+        raise PyRaise(mk_exc(ValueError, "empty range for randrange()"))
+    r = I.ctx.fresh_int("randint")
+    I.ctx.assume(z3.And(r >= ta, r <= tb))
+    I.ctx.assumptions_used.add("external:random.randint (any value of the range)")
+    return SInt(r)
